@@ -190,11 +190,15 @@ Theorem C20_macros :
   (forall path i, hier (dotted path) i = dotted (path ++ [i])) /\
   (forall n, undec (dec n) = Z.of_nat n /\ Forall (fun d => 48 <= d <= 57) (dec n) /\ dec n <> []) /\
   (forall t i p, expand i p (VStr t) = VStr [Lit (render t i p)]) /\
-  (forall i p, render [Lit [84; 32]; Idx; Lit [47]; HierIdx] i p = [84; 32] ++ dec i ++ [47] ++ p).
+  (forall i p, render [Lit [84; 32]; Idx; Lit [47]; HierIdx] i p = [84; 32] ++ dec i ++ [47] ++ p) /\
+  (forall w i p, render [IdxPad w] i p = repeat 48 (w - length (dec i))%nat ++ dec i) /\
+  render [IdxPad 3] 7 [] = [48; 48; 55].
 Proof.
   refine (conj hier_dotted (conj (fun n => conj (dec_undec n) (conj (dec_digits n) (dec_nonempty n))) (conj _ _))).
   - reflexivity.
-  - intros i p. cbn [render flat_map]. rewrite app_nil_r. reflexivity.
+  - refine (conj _ (conj _ eq_refl)).
+    + intros i p. cbn [render flat_map]. rewrite app_nil_r. reflexivity.
+    + intros w i p. cbn [render flat_map]. rewrite app_nil_r. reflexivity.
 Qed.
 Print Assumptions C20_macros.
 
